@@ -533,6 +533,9 @@ func envelopesIn(fn *ssa.Function) []envelope {
 
 func c02(c *an.Ctx) {
 	p := c.P
+	// "no update for an id after the server processed its unsubscribe" rests on
+	// Rerunner.Stop being a barrier for runs (shared with C04 / C08 / C17)
+	c.Check("R-LOCK+R-DOM", "no update after unsubscribe: Rerunner.Stop is a barrier (the compute call is under r.mu, after the r.stop test of the same critical section)", 3, func(o *an.O) { ruleRunUnderLock(c, o) })
 	subClosure := func() (*ssa.Function, *ssa.Function) {
 		fn := c.NeedFunc(gq, "(*conn).handleSubscribe")
 		cls := rerunnerClosures(fn)
